@@ -184,6 +184,10 @@ def oracle_vector(case, rec):
     name = case['routine']
     phase = np.mod(np.cumsum(0.3 + 0.1 * np.abs(x) / (np.abs(x).max() or 1)), 2 * np.pi)
     cyc = np.asarray(emd.cycles.get_cycle_vector(phase.copy(), return_good=False))[:, 0]
+    if name in ('get_cycle_vector', 'Cycles') and case['sig']['k'] % 3 == 0:
+        # an unwrapped phase (values beyond 2pi; the routines wrap it themselves): the caller's array must come back untouched
+        phase = np.cumsum(0.3 + 0.1 * np.abs(x) / (np.abs(x).max() or 1))
+        rec.cls('unwrapped phase')
     squeeze = False
     if name == 'interp_envelope':
         f = lambda X: emd.sift.interp_envelope(X, mode='upper')            # noqa: E731
